@@ -29,6 +29,7 @@ ASSUMPTIONS = ["numpy digitize/linspace semantics", "connectivity, splitting and
 def check(repo, col, tier):
     col.rule("R-C16-stale", "no must-stale read of a loop-assigned variable in the SWC helpers", 3)
     col.rule("R-C16-forms", "interpolation / centre / clipping / length conventions", 8)
+    _ids_to_rows(repo, col, "R-C16-forms")
     col.rule("R-C16-switches", "optional conventions of the reader are off by default", 3)
     _switches(repo, col, "R-C16-switches")
     col.rule("R-C16-fresh", "every import reads the file: no step of the reader is memoised", 10)
@@ -514,6 +515,32 @@ def _fresh(repo, col, R):
         wr = [n for n in ast.walk(fi.node) if isinstance(n, ast.Assign) and any(isinstance(t, ast.Subscript) and isinstance(t.value, ast.Name) and t.value.id in glob for t in n.targets)]
         col.check(not wr, R, fi, f"{q} keeps no parsed file in a module-level table", "",
                   f"`{unparse(wr[0])[:70] if wr else ''}` stores a result in a module-level dictionary", node=wr[0] if wr else fi.node)
+
+
+def _ids_to_rows(repo, col, R):
+    """Branches are lists of SWC point ids (the file counts from 1); the per-point tables (coordinates, radii) are numpy arrays
+    (counted from 0): a table is always read at `id - 1`."""
+    n = 0
+    for fname, tables in (("_compute_pathlengths", ("coords",)), ("_radius_generating_fns", ("radiuses",))):
+        fi = repo.func(CU, fname)
+        ex = idx.expander(repo, fi)
+        terms = [s_.value for s_ in ex.stores] + list(ex.returns) + [g for s_ in ex.stores for g in s_.guards] + [ex.term(c) for c in ex.calls]
+        seen = {}
+        for t in terms:
+            for x in t.walk():
+                if x.op == "sub" and x.args[0].op == "param" and x.args[0].name in tables and x.args[1].op not in ("const", "slice", "tuple"):
+                    seen[x.key()] = x
+        for x in seen.values():
+            ix = x.args[1]
+            from_ids = T.find(ix, lambda y: y.op == "elem" and T.find(y, lambda z: z.op == "param" and z.name == fi.params[0]) is not None) is not None
+            if not from_ids:
+                continue
+            n += 1
+            ok = ix.op == "binop" and ix.name == "-" and ix.args[1].op == "const" and ix.args[1].name == 1
+            col.check(ok, R, fi, f"{fname}: the point table `{x.args[0].name}` is read at id - 1", "table[np.asarray(branch) - 1]",
+                      f"`{x.short(70)}`: SWC ids count from 1, the table from 0 -- every point is taken from the row of its successor", node=x.node or fi.node)
+    if n < 2:
+        raise AnalysisError(f"only {n} reads of the point tables by SWC id found")
 
 
 def _switches(repo, col, R):
